@@ -188,6 +188,13 @@ def add_request_safe(sim: SimulationState, request: Request) -> ResultE[Simulati
         return Failure(
             SimulationStateError(f"origin {request.origin} not within road network geofence")
         )
+    elif request.id in sim.requests:
+        # re-adding an existing id replaces the entity: drop its old index entries first so that
+        # the location and search indexes keep agreeing with the entity's (possibly new) position
+        removed = remove_request_safe(sim, request.id)
+        if isinstance(removed, Failure):
+            return removed
+        return add_request_safe(removed.unwrap(), request)
     else:
         search_geoid = h3.h3_to_parent(request.geoid, sim.sim_h3_search_resolution)
 
@@ -313,6 +320,13 @@ def add_vehicle_safe(sim: SimulationState, vehicle: Vehicle) -> ResultE[Simulati
             f"cannot add vehicle {vehicle.id} to sim: not within road network geofence"
         )
         return Failure(error)
+    elif vehicle.id in sim.vehicles:
+        # re-adding an existing id replaces the entity: drop its old index entries first so that
+        # the location and search indexes keep agreeing with the entity's (possibly new) position
+        removed = remove_vehicle_safe(sim, vehicle.id)
+        if isinstance(removed, Failure):
+            return removed
+        return add_vehicle_safe(removed.unwrap(), vehicle)
     else:
         search_geoid = h3.h3_to_parent(vehicle.geoid, sim.sim_h3_search_resolution)
         updated_v_locations = DictOps.add_to_collection_dict(
@@ -479,6 +493,13 @@ def add_station_safe(sim: SimulationState, station: Station) -> ResultE[Simulati
             f"cannot add station {station.id} to sim: not within road network geofence"
         )
         return Failure(error)
+    elif station.id in sim.stations:
+        # re-adding an existing id replaces the entity: drop its old index entries first so that
+        # the location and search indexes keep agreeing with the entity's (possibly new) position
+        removed = remove_station_safe(sim, station.id)
+        if isinstance(removed, Failure):
+            return removed
+        return add_station_safe(removed.unwrap(), station)
     else:
         search_geoid = h3.h3_to_parent(station.geoid, sim.sim_h3_search_resolution)
         updated_s_locations = DictOps.add_to_collection_dict(
@@ -590,6 +611,13 @@ def add_base_safe(sim: SimulationState, base: Base) -> ResultE[SimulationState]:
             f"cannot add base {base.id} to sim: not within road network geofence"
         )
         return Failure(error)
+    elif base.id in sim.bases:
+        # re-adding an existing id replaces the entity: drop its old index entries first so that
+        # the location and search indexes keep agreeing with the entity's (possibly new) position
+        removed = remove_base_safe(sim, base.id)
+        if isinstance(removed, Failure):
+            return removed
+        return add_base_safe(removed.unwrap(), base)
     else:
         search_geoid = h3.h3_to_parent(base.geoid, sim.sim_h3_search_resolution)
         updated_b_locations = DictOps.add_to_collection_dict(sim.b_locations, base.geoid, base.id)
